@@ -569,12 +569,164 @@ def clientVerdict (c : CCase) (obs : List String) : String :=
     verdict (perCall.flatten ++ [("inner-call-count", ncalls == accepts)])
   | _ => "fail:unparseable-observation"
 
+/-! ### routed kind: `Routes::new(InterceptedService<Named, F>).add_service(Other)` -/
+
+def routedName : Bytes := str "pkg.Svc"
+def otherName : Bytes := str "other.Svc"
+
+def pathOfUri (u : Bytes) : Bytes := u.takeWhile (fun c => c != 63)
+
+def showFallback : Option (Response Unit) → Option String
+  | none => none
+  | some r => some s!"out {r.status} {r.version} {showHdrs r.headers} {showExt r.ext} 1 0 0 0 notr"
+
+/-- thread the states through `routesCall`; per call one line -/
+def runRouted (scripts : List Script) :
+    (Nat × List ((Hdrs × Ext) × Except GStatus (Hdrs × Ext))) → Nat → List (Request B) → List (Option String) → List (Option String) × Nat
+  | _, n, [], acc => (acc, n)
+  | s, n, r :: rs, acc =>
+    match routesCall routedName otherName (logged (scripted scripts)) recorder s n (pathOfUri r.uri) r with
+    | .service c =>
+      let line := match c.icpt.2.getLast?, showOutcome c.out with
+        | some l, some o =>
+          let isaw := s!"isaw {showHdrs l.1.1} {showExt l.1.2}"
+          let dec := match l.2 with
+            | .ok (md, x) => s!"iret {showHdrs md} {showExt x}"
+            | .error st => s!"irej {showStatus st}"
+          some s!"{isaw} {dec} {showSaw c.innerSaw} {o}"
+        | _, _ => none
+      runRouted scripts c.icpt c.inner rs (acc ++ [line])
+    | .other => runRouted scripts s n rs (acc ++ [some "noicpt noinner other out 418 11 0 0 0 1 0 0 0 notr"])
+    | .fallback fr =>
+      runRouted scripts s n rs (acc ++ [(showFallback fr).map (fun o => s!"noicpt noinner {o}")])
+
+def runRoutedModel (c : Case) : String :=
+  let (lines, n) := runRouted c.scripts (0, []) 0 c.calls []
+  if lines.any Option.isNone then "panic"
+  else String.intercalate " " (lines.filterMap id ++ [s!"calls {n}"])
+
+structure ObsRCall where
+  icpt : Option (Hdrs × (Nat × Ext) × Spec.Interceptor.Decision × Nat)
+  saw : Option (Request Body × Nat)
+  other : Bool
+  out : Except Nat ObsOut
+
+def oout : P (Except Nat ObsOut) := do
+  let t ← next
+  if t == "outerr" then do
+    let n ← pnat
+    pure (.error n)
+  else if t == "out" then do
+    let status ← pnat
+    let version ← pnat
+    let h ← ohdrs
+    let x ← oext
+    let eos ← pflag
+    let lo ← pnat
+    let hiT ← next
+    let hi ← (match optNat? hiT with
+      | some v => pure v
+      | none => failure : P (Option Nat))
+    let b ← obody
+    pure (.ok { resp := { status := status, version := version, headers := h, ext := x.2, body := b },
+                extTotal := x.1, eos := eos, lo := lo, hi := hi })
+  else failure
+
+def orcall : P ObsRCall := do
+  let t ← next
+  let icpt ← (if t == "noicpt" then pure none
+    else if t == "isaw" then do
+      let ih ← ohdrs
+      let ix ← oext
+      let t ← next
+      if t == "iret" then do
+        let h ← ohdrs
+        let x ← oext
+        pure (some (ih, ix, Spec.Interceptor.Decision.accept h x.2, x.1))
+      else if t == "irej" then do
+        let code ← pnat
+        let msg ← pbytes
+        let det ← pbytes
+        let md ← ohdrs
+        pure (some (ih, ix, Spec.Interceptor.Decision.reject { code := code, message := msg, details := det, metadata := md }, 0))
+      else failure
+    else failure : P (Option (Hdrs × (Nat × Ext) × Spec.Interceptor.Decision × Nat)))
+  let t ← next
+  let saw ← (if t == "noinner" then pure none
+    else if t == "inner" then do
+      let m ← pbytes
+      let v ← pnat
+      let u ← pbytes
+      let h ← ohdrs
+      let x ← oext
+      let b ← obody
+      pure (some ({ method := m, version := v, uri := u, headers := h, ext := x.2, body := b }, x.1))
+    else failure : P (Option (Request Body × Nat)))
+  -- optional `other`
+  let ts ← get
+  let other ← (match ts with
+    | "other" :: _ => do let _ ← next; pure true
+    | _ => pure false : P Bool)
+  let out ← oout
+  pure { icpt := icpt, saw := saw, other := other, out := out }
+
+def routedClauses (req : Request B) (script : Option Script) (o : ObsRCall) : List (String × Bool) :=
+  let path := pathOfUri req.uri
+  if Spec.Interceptor.pathNamesService routedName path then
+    match o.icpt with
+    | none => [("routed-call-reaches-interceptor", false)]
+    | some (ih, ix, dec, tot) =>
+      ("routed-call-not-sent-elsewhere", !o.other) ::
+      callClauses req script { isawH := ih, isawX := ix, decision := dec, iretXTotal := tot, saw := o.saw, out := o.out }
+  else
+    let base : List (String × Bool) :=
+      [("unrouted-interceptor-not-invoked", o.icpt.isNone), ("unrouted-inner-not-invoked", o.saw.isNone)]
+    if Spec.Interceptor.pathNamesService otherName path then base ++ [("other-service-invoked", o.other)]
+    else
+      let un : GStatus := { code := 12, message := [], details := [], metadata := [] }
+      base ++ [("unrouted-not-sent-elsewhere", !o.other)] ++ (match o.out with
+        | .error _ => [("unrouted-yields-response", false)]
+        | .ok oo =>
+          Spec.Interceptor.rejectClauses un false
+            { status := oo.resp.status,
+              headers := oo.resp.headers.filter (fun e => !Spec.Interceptor.httpFraming e.1),
+              endStream := oo.eos, frames := frameCount oo.resp.body })
+
+def routedVerdict (c : Case) (obs : List String) : String :=
+  if obs == ["panic"] then "fail:panic"
+  else
+    let p : P (List ObsRCall × Nat) := do
+      let cs ← rep orcall c.calls.length
+      let t ← next
+      if t != "calls" then failure
+      let k ← pnat
+      pure (cs, k)
+    match p obs with
+    | some ((ocs, ncalls), []) =>
+      let n := c.scripts.length
+      -- the interceptor's call counter advances only on routed calls
+      let rec go : List (Request B × ObsRCall) → Nat → List (String × Bool)
+        | [], _ => []
+        | (req, o) :: rest, cnt =>
+          let routedHere := Spec.Interceptor.pathNamesService routedName (pathOfUri req.uri)
+          routedClauses req (if n == 0 then none else c.scripts[cnt % n]?) o ++
+            go rest (if routedHere then cnt + 1 else cnt)
+      let accepts := (ocs.filter (fun o => match o.icpt with
+        | some (_, _, .accept _ _, _) => true
+        | _ => false)).length
+      verdict (go (c.calls.zip ocs) 0 ++ [("inner-call-count", ncalls == accepts)])
+    | _ => "fail:unparseable-observation"
+
 def handle (case obs : List String) : String × String :=
   match case with
   | "client" :: _ =>
     (match pccase case with
      | some (c, []) => (runClientModel c, clientVerdict c obs)
      | _ => bad)
+  | "routed" :: _ =>
+    (match parseCase case with
+     | none => bad
+     | some c => (runRoutedModel c, routedVerdict c obs))
   | _ =>
     match parseCase case with
     | none => bad
